@@ -78,9 +78,12 @@ theorem idealRead_closed (B : Nat) (hB : 0 < B) (data : Bytes) : ∀ (fuel : Nat
         refine ⟨t', ?_, ?_, hi'⟩
         · rw [hadv, h', hpos.1, slice_take _ _ _ _ hd1.2.1, List.append_assoc, slice_append _ _ _ _ hd1.2.2]
         · rw [hp', hpos.1]; omega
+/-- status of skipping `size` bytes when `left` bytes are left: running into the end of the data is an error -/
+def skipRc (size left : Nat) : Err := if size ≤ left then .ok else .oob
+
 theorem idealSkip_closed (B : Nat) (hB : 0 < B) (data : Bytes) : ∀ (fuel : Nat) (t : Ideal) (size : Nat) (os : OS),
     Iv data t → size < fuel →
-    ∃ t', istreamSkipLoop (idealStream B data) fuel t size os = (.ok, t', os) ∧
+    ∃ t', istreamSkipLoop (idealStream B data) fuel t size os = (skipRc size (data.length - t.pos), t', os) ∧
       t'.pos = t.pos + min size (data.length - t.pos) ∧ Iv data t' := by
   intro fuel
   induction fuel with
@@ -89,7 +92,7 @@ theorem idealSkip_closed (B : Nat) (hB : 0 < B) (data : Bytes) : ∀ (fuel : Nat
     intro t size os hi hf
     unfold istreamSkipLoop
     by_cases h0 : size = 0
-    · subst h0; exact ⟨t, by simp, by simp, hi⟩
+    · subst h0; exact ⟨t, by simp [skipRc], by simp, hi⟩
     · simp only [h0, if_false]
       obtain ⟨a, hg, ha1, ha2, ha3, _⟩ := idealGet_facts B hB data t size os hi
       have hg' : (idealStream B data).get t size os = idealGet B data t size os := rfl
@@ -98,7 +101,9 @@ theorem idealSkip_closed (B : Nat) (hB : 0 < B) (data : Bytes) : ∀ (fuel : Nat
       · subst hz
         simp only [if_true]
         have hp := ha2 rfl
-        exact ⟨⟨t.pos, 0⟩, rfl, by simp; omega, by simp [Iv]; omega⟩
+        have hrc : skipRc size (data.length - t.pos) = .oob := by
+          simp only [skipRc]; rw [if_neg]; omega
+        exact ⟨⟨t.pos, 0⟩, by rw [hrc], by simp; omega, by simp [Iv]; omega⟩
       · simp only [hz, if_false]
         have hl : (slice data t.pos a).length = a := slice_length data t.pos a ha1
         simp only [hl]
@@ -114,27 +119,34 @@ theorem idealSkip_closed (B : Nat) (hB : 0 < B) (data : Bytes) : ∀ (fuel : Nat
           · dsimp only; omega
         obtain ⟨t', h', hp', hi'⟩ := ih (idealAdv ⟨t.pos, a⟩ diff) (size - diff) os hpos.2 (by omega)
         refine ⟨t', ?_, ?_, hi'⟩
-        · rw [hadv, h']
+        · rw [hadv, h', hpos.1]
+          have : skipRc (size - diff) (data.length - (t.pos + diff)) = skipRc size (data.length - t.pos) := by
+            simp only [skipRc]
+            have : (size - diff ≤ data.length - (t.pos + diff)) ↔ (size ≤ data.length - t.pos) := by omega
+            simp only [this]
+          rw [this]
         · rw [hp', hpos.1]; omega
 
-theorem appendRes_nosparse (o : OStream) (d : Bytes) (ho : o.sparse = 0) (hd : d.length ≠ 0) :
+theorem appendRes_nosparse (o : OStream) (d : Bytes) (ho : o.sparse = 0) (hk : o.skew = 0) (hd : d.length ≠ 0) :
     appendRes o d = { o with out := o.out ++ d, size := o.size + d.length } := by
-  simp [appendRes, realizeRes, ho, hd]
+  have hr : realizeRes o = o := by simp [realizeRes, ho]
+  simp only [appendRes, stepRes, hd, if_false, hr]
+  exact wrRes_skew0 o d hk
 
 theorem idealSplice_closed (B : Nat) (hB : 0 < B) (data : Bytes) : ∀ (fuel : Nat) (t : Ideal) (o : OStream) (size total : Nat)
-    (os : OS), Iv data t → size < fuel → o.sparse = 0 → noHard os.sc = true →
+    (os : OS), Iv data t → size < fuel → o.sparse = 0 → o.skew = 0 → noHard os.sc = true →
     ∃ t' o' os', istreamSpliceLoop (idealStream B data) fuel t o size total os =
         ((.ok, total + min size (data.length - t.pos)), t', o', os') ∧
-      o'.out = o.out ++ slice data t.pos size ∧ o'.sparse = 0 ∧
+      o'.out = o.out ++ slice data t.pos size ∧ (o'.sparse = 0 ∧ o'.skew = 0) ∧
       t'.pos = t.pos + min size (data.length - t.pos) ∧ Iv data t' ∧ noHard os'.sc = true := by
   intro fuel
   induction fuel with
   | zero => intro t o size total os _ h; omega
   | succ fuel ih =>
-    intro t o size total os hi hf ho hn
+    intro t o size total os hi hf ho hk hn
     unfold istreamSpliceLoop
     by_cases h0 : size = 0
-    · subst h0; exact ⟨t, o, os, by simp, by simp [slice], ho, by simp, hi, hn⟩
+    · subst h0; exact ⟨t, o, os, by simp, by simp [slice], ⟨ho, hk⟩, by simp, hi, hn⟩
     · simp only [h0, if_false]
       obtain ⟨a, hg, ha1, ha2, ha3, _⟩ := idealGet_facts B hB data t size os hi
       have hg' : (idealStream B data).get t size os = idealGet B data t size os := rfl
@@ -143,7 +155,7 @@ theorem idealSplice_closed (B : Nat) (hB : 0 < B) (data : Bytes) : ∀ (fuel : N
       · subst hz
         simp only [if_true]
         have hp := ha2 rfl
-        refine ⟨⟨t.pos, 0⟩, o, os, ?_, ?_, ho, by simp; omega, by simp [Iv]; omega, hn⟩
+        refine ⟨⟨t.pos, 0⟩, o, os, ?_, ?_, ⟨ho, hk⟩, by simp; omega, by simp [Iv]; omega, hn⟩
         · have : min size (data.length - t.pos) = 0 := by omega
           rw [this]; rfl
         · simp [slice, hp]
@@ -164,11 +176,11 @@ theorem idealSplice_closed (B : Nat) (hB : 0 < B) (data : Bytes) : ∀ (fuel : N
         have hlen : (slice data t.pos diff).length = diff := slice_length _ _ _ (by omega)
         rw [htk]
         obtain ⟨os1, ha, hn1⟩ := fileAppend_det o (slice data t.pos diff) diff hlen.symm os hn
-        rw [ha, appendRes_nosparse o _ ho (by omega)]
+        rw [ha, appendRes_nosparse o _ ho hk (by omega)]
         simp only []
         obtain ⟨t', o', os', h', ho1, ho2, hp', hi', hn'⟩ := ih (idealAdv ⟨t.pos, a⟩ diff)
           { o with out := o.out ++ slice data t.pos diff, size := o.size + (slice data t.pos diff).length }
-          (size - diff) (total + diff) os1 hpos.2 (by omega) ho hn1
+          (size - diff) (total + diff) os1 hpos.2 (by omega) ho hk hn1
         refine ⟨t', o', os', ?_, ?_, ho2, ?_, hi', hn'⟩
         · rw [hadv, h', hpos.1]
           have : total + diff + min (size - diff) (data.length - (t.pos + diff)) = total + min size (data.length - t.pos) := by
@@ -178,26 +190,41 @@ theorem idealSplice_closed (B : Nat) (hB : 0 < B) (data : Bytes) : ∀ (fuel : N
           simp only [List.append_assoc, slice_append _ _ _ _ hd1.2.2]
         · rw [hp', hpos.1]; omega
 
+/-- the position of the stream after `record_to_memory(size)`: behind the record and its padding to a multiple of
+512 (as far as the data reaches); when the record is cut short, behind what `sqfs_istream_read` consumed -/
+def recordEnd (len pos size : Nat) : Nat :=
+  if pos + size ≤ len ∧ size ≤ 0x7FFFFFFF then
+    (if size % 512 ≠ 0 then pos + size + min (512 - size % 512) (len - (pos + size)) else pos + size)
+  else pos + min (min size 0x7FFFFFFF) (len - pos)
+
 theorem idealRecord_closed (B : Nat) (hB : 0 < B) (data : Bytes) (t : Ideal) (size : Nat) (os : OS) (hi : Iv data t) :
     (recordToMemory (idealStream B data) t size os).1 =
-      (if t.pos + size ≤ data.length ∧ size ≤ 0x7FFFFFFF then some (slice data t.pos size) else none) ∧
-    (recordToMemory (idealStream B data) t size os).2.2 = os := by
+      (if t.pos + size ≤ data.length ∧ size ≤ 0x7FFFFFFF ∧
+          (size % 512 = 0 ∨ t.pos + size + (512 - size % 512) ≤ data.length)
+        then some (slice data t.pos size) else none) ∧
+    (recordToMemory (idealStream B data) t size os).2.2 = os ∧
+    Iv data (recordToMemory (idealStream B data) t size os).2.1 ∧
+    (recordToMemory (idealStream B data) t size os).2.1.pos = recordEnd data.length t.pos size := by
   unfold recordToMemory istreamRead
   simp only []
   generalize hsz : (if size > 0x7FFFFFFF then 0x7FFFFFFF else size) = sz
+  have hszm : sz = min size 0x7FFFFFFF := by rw [← hsz]; split <;> omega
   obtain ⟨t1, h1, hp1, hi1⟩ := idealRead_closed B hB data (sz + 1) t sz [] os hi (by omega)
   rw [h1]
   simp only [List.nil_append]
+  have hi0 := hi
   unfold Iv at hi
   have hlen : (slice data t.pos sz).length = min sz (data.length - t.pos) := by
     simp [slice]
   by_cases hd : (slice data t.pos sz).length < size
   · simp only [hd, if_true]
-    refine ⟨?_, trivial⟩
-    rw [if_neg]
-    intro ⟨h1, h2⟩
-    have : sz = size := by rw [← hsz]; split <;> omega
-    omega
+    have hneg : ¬ (t.pos + size ≤ data.length ∧ size ≤ 0x7FFFFFFF) := by
+      intro ⟨h1, h2⟩
+      omega
+    have hneg' : ¬ (t.pos + size ≤ data.length ∧ size ≤ 0x7FFFFFFF ∧
+        (size % 512 = 0 ∨ t.pos + size + (512 - size % 512) ≤ data.length)) := fun h => hneg ⟨h.1, h.2.1⟩
+    refine ⟨by rw [if_neg hneg'], trivial, hi1, ?_⟩
+    simp only [recordEnd, if_neg hneg, hp1, hszm]
   · simp only [hd, if_false]
     have hsz' : sz = size := by
       by_cases h : size > 0x7FFFFFFF
@@ -210,15 +237,33 @@ theorem idealRecord_closed (B : Nat) (hB : 0 < B) (data : Bytes) (t : Ideal) (si
       · by_cases h : sz > 0x7FFFFFFF
         · simp only [h, if_true] at hsz; omega
         · omega
-    rw [if_pos hcond]
+    have hp1' : t1.pos = t.pos + sz := by rw [hp1]; omega
     by_cases hp : sz % 512 ≠ 0
     · simp only [if_pos hp]
       unfold istreamSkip
-      obtain ⟨t2, h2, _, _⟩ := idealSkip_closed B hB data (512 - sz % 512 + 1) t1 (512 - sz % 512) os hi1 (by omega)
+      obtain ⟨t2, h2, hp2, hi2⟩ := idealSkip_closed B hB data (512 - sz % 512 + 1) t1 (512 - sz % 512) os hi1 (by omega)
       rw [h2]
-      exact ⟨rfl, rfl⟩
+      by_cases hfit : t.pos + sz + (512 - sz % 512) ≤ data.length
+      · have hrc : skipRc (512 - sz % 512) (data.length - t1.pos) = .ok := by
+          simp only [skipRc]; rw [if_pos]; omega
+        rw [hrc]
+        refine ⟨by rw [if_pos ⟨hcond.1, hcond.2, Or.inr hfit⟩], rfl, hi2, ?_⟩
+        simp only [recordEnd, if_pos hcond, if_pos hp, hp2, hp1']
+      · have hrc : skipRc (512 - sz % 512) (data.length - t1.pos) = .oob := by
+          simp only [skipRc]; rw [if_neg]; omega
+        rw [hrc]
+        have hneg : ¬ (t.pos + sz ≤ data.length ∧ sz ≤ 0x7FFFFFFF ∧
+            (sz % 512 = 0 ∨ t.pos + sz + (512 - sz % 512) ≤ data.length)) := by
+          intro ⟨_, _, h3⟩
+          rcases h3 with h3 | h3
+          · exact hp h3
+          · exact hfit h3
+        refine ⟨by rw [if_neg hneg], rfl, hi2, ?_⟩
+        simp only [recordEnd, if_pos hcond, if_pos hp, hp2, hp1']
     · simp only [if_neg hp]
-      exact ⟨trivial, trivial⟩
+      have hp' : sz % 512 = 0 := by omega
+      refine ⟨by rw [if_pos ⟨hcond.1, hcond.2, Or.inl hp'⟩], trivial, hi1, ?_⟩
+      simp only [recordEnd, if_pos hcond, if_neg hp, hp1']
 
 theorem findNl_le (w : Bytes) : findNl w ≤ w.length := by
   induction w with
